@@ -5,7 +5,7 @@
 
 use crate::decode;
 use full_moon::ast::*;
-use full_moon::ast::luau::TypeSpecifier;
+use full_moon::ast::luau::{TypeFieldKey, TypeInfo, TypeSpecifier};
 use full_moon::node::Node as FmNode;
 use full_moon::tokenizer::{TokenReference, TokenType};
 use serde::{Deserialize, Serialize};
@@ -48,6 +48,52 @@ pub fn opaque_text<T: FmNode>(node: &T) -> String {
         }
     }
     parts.join(" ")
+}
+
+/// Luau types, structurally: parentheses are `ttuple` nodes (a tuple of one is a parenthesised type).
+pub fn p_type(t: &TypeInfo) -> Node {
+    match t {
+        TypeInfo::Array { type_info, access, .. } => n("tarray", access.as_ref().map(tok_text).unwrap_or_default(), vec![p_type(type_info)]),
+        TypeInfo::Basic(tok) => n("tname", tok_text(tok), vec![]),
+        TypeInfo::String(tok) => n("tlit", decode::decode_token(&tok_text(tok)).map(|b| decode::canon_bytes(&b)).unwrap_or_else(|| tok_text(tok)), vec![]),
+        TypeInfo::Boolean(tok) => n("tlit", tok_text(tok), vec![]),
+        TypeInfo::Callback { generics, arguments, return_type, .. } => {
+            let mut c = Vec::new();
+            c.push(n("tgenerics", generics.as_ref().map(|g| opaque_text(g)).unwrap_or_default(), vec![]));
+            for a in arguments.iter() {
+                c.push(n("targ", a.name().map(|(nm, _)| tok_text(nm)).unwrap_or_default(), vec![p_type(a.type_info())]));
+            }
+            c.push(n("tret", "", vec![p_type(return_type)]));
+            n("tfunc", "", c)
+        }
+        TypeInfo::Generic { base, generics, .. } => n("tgeneric", tok_text(base), generics.iter().map(p_type).collect()),
+        TypeInfo::GenericPack { name, .. } => n("tpack", tok_text(name), vec![]),
+        TypeInfo::Intersection(i) => n("tinter", "", i.types().iter().map(p_type).collect()),
+        TypeInfo::Union(u) => n("tunion", "", u.types().iter().map(p_type).collect()),
+        TypeInfo::Optional { base, .. } => n("topt", "", vec![p_type(base)]),
+        TypeInfo::Table { fields, .. } => n(
+            "ttable",
+            "",
+            fields
+                .iter()
+                .map(|f| {
+                    let (key, kc) = match f.key() {
+                        TypeFieldKey::Name(tok) => (tok_text(tok), vec![]),
+                        TypeFieldKey::IndexSignature { inner, .. } => ("[]".to_string(), vec![p_type(inner)]),
+                        other => (opaque_text(other), vec![]),
+                    };
+                    let mut c = kc;
+                    c.push(p_type(f.value()));
+                    n("tfield", format!("{}{}", f.access().map(|a| format!("{} ", tok_text(a))).unwrap_or_default(), key), c)
+                })
+                .collect(),
+        ),
+        TypeInfo::Typeof { inner, .. } => n("ttypeof", "", vec![p_expr(inner)]),
+        TypeInfo::Tuple { types, .. } => n("ttuple", "", types.iter().map(p_type).collect()),
+        TypeInfo::Variadic { type_info, .. } => n("tvariadic", "", vec![p_type(type_info)]),
+        TypeInfo::VariadicPack { name, .. } => n("tvpack", tok_text(name), vec![]),
+        other => n("opaque", opaque_text(other), vec![]),
+    }
 }
 
 pub fn p_str_token(t: &TokenReference) -> Node {
@@ -96,7 +142,7 @@ pub fn p_expr(e: &Expression) -> Node {
             }
         }
         Expression::TypeAssertion { expression, type_assertion } => {
-            n("cast", "", vec![p_expr(expression), n("type", opaque_text(type_assertion.cast_to()), vec![])])
+            n("cast", "", vec![p_expr(expression), n("type", "", vec![p_type(type_assertion.cast_to())])])
         }
         Expression::Var(v) => p_var(v),
         other => n("opaque", opaque_text(other), vec![]),
@@ -166,7 +212,7 @@ fn p_table(t: &TableConstructor) -> Node {
 
 fn p_typespec(ts: Option<&TypeSpecifier>) -> Vec<Node> {
     match ts {
-        Some(t) => vec![n("type", opaque_text(t.type_info()), vec![])],
+        Some(t) => vec![n("type", "", vec![p_type(t.type_info())])],
         None => vec![],
     }
 }
@@ -276,6 +322,19 @@ pub fn p_stmt(s: &Stmt) -> Node {
         Stmt::CompoundAssignment(ca) => n("compound", tok_text(ca.compound_operator().token()), vec![p_var(ca.lhs()), p_expr(ca.rhs())]),
         Stmt::Goto(g) => n("goto", tok_text(g.label_name()), vec![]),
         Stmt::Label(l) => n("label", tok_text(l.name()), vec![]),
+        Stmt::TypeDeclaration(td) => n(
+            "typedecl",
+            tok_text(td.type_name()),
+            vec![n("tgenerics", td.generics().map(|g| opaque_text(g)).unwrap_or_default(), vec![]), p_type(td.type_definition())],
+        ),
+        Stmt::ExportedTypeDeclaration(etd) => {
+            let td = etd.type_declaration();
+            n(
+                "typedecl",
+                format!("export {}", tok_text(td.type_name())),
+                vec![n("tgenerics", td.generics().map(|g| opaque_text(g)).unwrap_or_default(), vec![]), p_type(td.type_definition())],
+            )
+        }
         Stmt::TypeFunction(tf) => n("typefunction", tok_text(tf.function_name()), p_funcbody(tf.function_body())),
         Stmt::ExportedTypeFunction(etf) => {
             n("typefunction", format!("export {}", tok_text(etf.type_function().function_name())), p_funcbody(etf.type_function().function_body()))
@@ -316,6 +375,19 @@ pub fn meaning(t: &Node, open: bool) -> Node {
             }
         }
         "semi" => meaning(&t.c[0], false),
+        "ttuple" if t.c.len() == 1 => meaning(&t.c[0], false),
+        "tunion" | "tinter" => {
+            let mut c: Vec<Node> = Vec::new();
+            for x in &t.c {
+                let m = meaning(x, false);
+                if m.k == t.k {
+                    c.extend(m.c);
+                } else {
+                    c.push(m);
+                }
+            }
+            n(&t.k, "", c)
+        }
         "chain" => {
             let mut c: Vec<Node> = Vec::new();
             let p = meaning(&t.c[0], false);
